@@ -324,6 +324,17 @@ def main(args):
                             'status': status, 'fingerprints': fp})
         finally:
             shutil.rmtree(scratch, ignore_errors=True)
-    with open(os.path.join(VERIF, 'evidence', 'sensitivity.json'), 'w') as f:
-        json.dump(results, f, indent=1)
+    # a selective run (ODLSIM_MUT / ODLSIM_PROPS) updates its entries and
+    # keeps the others
+    path = os.path.join(VERIF, 'evidence', 'sensitivity.json')
+    merged = {}
+    if (only or props) and os.path.exists(path):
+        try:
+            merged = {r['id']: r for r in json.load(open(path))}
+        except Exception:
+            merged = {}
+    for r in results:
+        merged[r['id']] = r
+    with open(path, 'w') as f:
+        json.dump([merged[k] for k in sorted(merged)], f, indent=1)
     return 0 if bad == 0 else 2
